@@ -19,7 +19,9 @@ m = dict(version=1,
          hooks=dict(guard="BEE2_VERIF", enable="every check builds /repo's working tree itself (build/build.py) with -DBEE2_VERIF in the sanitizer configurations",
                     baseline_off_cmd="bin/baseline", source_commits=hooks, add_only=True),
          engines=[dict(name="b2x+hypothesis", path="x/b2x.c lib/x.py lib/harness.py", serves_properties=sorted(CHECKS),
-                       kind_free_text="generic call executor for libbee2 (exact-size heap buffers, ASan/MSan, asserts on) driven by Hypothesis strategies from Python; oracles are Python reference models, inverses and differentials")],
+                       kind_free_text="generic call executor for libbee2 (exact-size heap buffers, ASan/MSan, asserts on) driven by Hypothesis strategies from Python; oracles are Python reference models, inverses and differentials"),
+                  dict(name="b2x+enumeration", path="props/c20.py", serves_properties=["C20"], kind_free_text="complete enumeration of the automaton graph and rule monitors"),
+                  dict(name="libFuzzer", path="fuzz/fz.c fuzz/build_fuzz.py props/c08.py", serves_properties=["C08"], kind_free_text="clang libFuzzer targets with ASan and in-target oracles")],
          checks=[CHECKS[k] for k in sorted(CHECKS)],
          notes="See DESIGN.md. known_findings.json lists repaired (fixed) and recorded (known) defects.",
          not_applicable=[dict(property_id=p, reason=NA.get(p, "check not built yet in this round; see DESIGN.md section 4 for the plan")) for p in ALL if p not in CHECKS])
